@@ -245,6 +245,8 @@ def check(prop, tier, seed, only=None, jobs=None, budget=None, max_wall=None):
             "bounds": getattr(mod, "BOUNDS", {}).get(tier, getattr(mod, "BOUNDS", {})),
             "outside_bounds": getattr(mod, "OUTSIDE", ""),
             "stubs": getattr(mod, "STUBS", []),
+            # vacuity guard: instances in which no path reached an assertion (every path was outside the premise)
+            "instances_without_a_checked_path": sorted(r["instance"] for r in results if r.get("paths", 0) and not r.get("ok", 0) and not r.get("failing_paths", 0) and not r.get("refused", 0))[:200],
             "per_instance": [
                 {k: r[k] for k in ("instance", "paths", "vacuous", "ok", "failing_paths", "checks", "exhaustive", "wall_s")}
                 for r in results
@@ -263,6 +265,9 @@ def check(prop, tier, seed, only=None, jobs=None, budget=None, max_wall=None):
     print("%s tier=%s instances=%d paths=%d holding=%d failing=%d vacuous=%d solver_queries=%d solver_s=%.1f wall=%.1fs" % (
         prop, tier, len(results), tot("paths"), tot("ok"), tot("failing_paths"), tot("vacuous"), tot("checks"),
         sum(r["solver_s"] for r in results), wall))
+    hollow = [r["instance"] for r in results if r.get("paths", 0) and not r.get("ok", 0) and not r.get("failing_paths", 0) and not r.get("refused", 0)]
+    if hollow:
+        print("NOTE: %d of %d instances reached no assertion (all their paths are outside the premise): %s%s" % (len(hollow), len(results), ", ".join(sorted(hollow)[:6]), " ..." if len(hollow) > 6 else ""))
     for kid, (kf, sig) in sorted(known.items()):
         print("KNOWN-FINDING: property=%s %s [%s] (%s)" % (prop, kf["what"], kid, sig))
     for path, sig, detail in violations:
